@@ -178,6 +178,18 @@ FLOAT_BITS = [0, 1 << 63, 0x7FF0000000000000, 0xFFF0000000000000, 0x7FF800000000
 CHARS = "a\n \x00\x7f\x80\u00e9\u07ff\u0800\u6f22\ud7ff\ue000\uffff\U00010000\U0001f600\U0010ffff"
 
 
+def band_ints(rng, n):
+    """n ints in the band just below the interpreter's int<->str digit limit (3990 .. 4300 digits), where work-arounds for that limit
+    would act: random digits, and powers of ten +- a little (long runs of zeros / nines).  The extracted model is quadratic in the
+    number of digits (4 s for 4000), so the checks take a few of these, not a share of the random stream."""
+    out = []
+    for _ in range(n):
+        nd = rng.choice([3999, 4000, 4001, 4002, 4100, 4299, 4300])
+        z = rng.choice([rng.randrange(10 ** (nd - 1), 10 ** nd), 10 ** (nd - 1) + rng.randrange(1000), 10 ** nd - 1 - rng.randrange(1000)])
+        out.append(-z if rng.random() < 0.5 else z)
+    return out
+
+
 def gen_int(rng):
     r = rng.random()
     if r < 0.4:
